@@ -27,6 +27,9 @@ pub struct RustDocument {
     pub(crate) resolving: Vec<String>,
     /// the default namespace (`xmlns="..."`) in scope: what an unprefixed reference denotes
     pub(crate) default_namespace: Option<Rc<Namespace>>,
+    /// components the importing documents have read so far (e.g. from a file that this file imports
+    /// as well): references may point to them, but they are written by the document that owns them
+    pub(crate) known_nodes: Vec<Rc<RustNode>>,
 }
 
 impl RustDocument {
@@ -39,9 +42,10 @@ impl RustDocument {
 
     /// Like `init`, for a document that is imported by another one: the namespaces the importer
     /// already knows keep their abbreviation and module, and new ones are made unique against them.
-    pub fn init_with_known_namespaces(doc: &Document, known: &[Rc<Namespace>]) -> Self {
+    pub fn init_with_known_namespaces(doc: &Document, known: &[Rc<Namespace>], known_nodes: &[Rc<RustNode>]) -> Self {
         let mut me = Self::empty();
         me.namespaces = known.to_vec();
+        me.known_nodes = known_nodes.to_vec();
         collect_namespaces_on_node(doc.root_element(), &mut me);
         me
     }
@@ -75,6 +79,7 @@ impl RustDocument {
             soap_services: Vec::new(),
             resolving: Vec::new(),
             default_namespace: None,
+            known_nodes: Vec::new(),
         }
     }
 
@@ -183,7 +188,7 @@ impl RustDocument {
         namespace: Option<&Namespace>,
         kind: Option<ComponentKind>,
     ) -> Option<Rc<RustNode>> {
-        let rust_node = self.nodes.iter().find(|node| {
+        let rust_node = self.nodes.iter().chain(&self.known_nodes).find(|node| {
             node.rust_type.xml_name().is_some_and(|n| n == xml_name)
                 && node.in_namespace.as_deref() == namespace
                 && kind.is_none_or(|k| k.matches_rust_type(&node.rust_type))
